@@ -234,7 +234,7 @@ func c19GelfFixed() map[string]func(*hx.Rng) *jt.Tree {
 	}
 }
 
-func c19GenGelf(w *bufio.Writer, r *hx.Rng, rawCtl bool, gp *gelf.Plugin) {
+func c19GenGelf(w *bufio.Writer, r *hx.Rng, rawCtl bool, gp *gelf.Plugin, failFirst bool) {
 	route := func(src []byte) ([][]byte, bool) {
 		ev, err := c19MkEvent(0, src)
 		if err != nil {
@@ -244,7 +244,7 @@ func c19GenGelf(w *bufio.Writer, r *hx.Rng, rawCtl bool, gp *gelf.Plugin) {
 		return [][]byte{append([]byte(nil), gp.VerifFormat(ev)...)}, true
 	}
 	bs := c19GenBatches(r, 8, []string{"host", "message", "time", "level", "_extra"}, c19GelfFixed(), rawCtl, route)
-	fmt.Fprintf(w, "c19.gelf %d", c19Lim(r))
+	fmt.Fprintf(w, "c19.gelf %d %s", c19Lim(r), hx.B(failFirst))
 	for _, f := range c19GelfFields {
 		fmt.Fprintf(w, " %s", hx.Enc([]byte(f)))
 	}
@@ -497,9 +497,9 @@ func genC19(w *bufio.Writer, rng *hx.Rng, tier string) {
 		}
 	}
 	// 2. structured random cases per sink
-	nrand := 60
+	nrand := 1200
 	if thorough {
-		nrand = 1500
+		nrand = 12000
 	}
 	gp := &gelf.Plugin{}
 	var gf [6][]byte
@@ -512,7 +512,7 @@ func genC19(w *bufio.Writer, rng *hx.Rng, tier string) {
 	mixPool := []int{200, 200, 200, 413, 413, 500, 503, 400, 429}
 	for i := 0; i < nrand; i++ {
 		c19GenFile(w, rng, false)
-		c19GenGelf(w, rng, false, gp)
+		c19GenGelf(w, rng, false, gp, false)
 		c19GenKafka(w, rng, false)
 		c19GenHTTP(w, rng, false, false, c19Script(rng, rng.Range(0, 3), okPool), 8)
 		c19GenHTTP(w, rng, false, rng.Bool(), c19Script(rng, rng.Range(0, 12), mixPool), 8)
@@ -521,12 +521,20 @@ func genC19(w *bufio.Writer, rng *hx.Rng, tier string) {
 		c19GenSplunk(w, rng, false, c19Script(rng, rng.Range(0, 4), []int{200, 200, 200, 500, 400, 413}))
 		c19GenLoki(w, rng, c19Script(rng, rng.Range(0, 4), []int{204, 204, 204, 500, 400, 200}), false)
 	}
+	// 2b. gelf: the first attempt finds the endpoint down (each such case costs the plugin's 1 s sleep)
+	nfail := 2
+	if thorough {
+		nfail = 12
+	}
+	for i := 0; i < nfail; i++ {
+		c19GenGelf(w, rng, false, gp, true)
+	}
 	// 3. malformed stream: raw control bytes inside JSON strings (insane-json accepts them), Loki
 	//    timestamps that are not UnixNano
 	nmal := nrand / 4
 	for i := 0; i < nmal; i++ {
 		c19GenFile(w, rng, true)
-		c19GenGelf(w, rng, true, gp)
+		c19GenGelf(w, rng, true, gp, false)
 		c19GenKafka(w, rng, true)
 		c19GenHTTP(w, rng, true, false, nil, 6)
 		c19GenES(w, rng, true, false, nil, 6)
